@@ -21,6 +21,11 @@ BANNED = {'ha': ['twopl', 'n3', 't2', 'llq', 'luq', 'lt'],
           'hr': ['n3', 'llq', 'luq', 'lt'],
           'spa': []}
 ORDER = ['n1', 'n2', 'n3', 'pmin', 'pmax', 't1', 't2', 'skew', 'lq', 'uq', 'llq', 'lt', 'luq']
+GEN_LONG = {'-numinst': '--numberinstances', '-o': '--outputdirectory', '-mp': '--matchingproblem', '-twopl': '--preferencelists2',
+            '-skew': '--linearskew', '-n1': '--numberofagents1', '-n2': '--numberofagents2', '-n3': '--numberofagents3',
+            '-pmin': '--minpreflistlength', '-pmax': '--maxpreflistlength', '-t1': '--ties1', '-t2': '--ties2',
+            '-lq': '--lowerquotas', '-uq': '--upperquotas', '-llq': '--lecturerlowerquotas', '-luq': '--lecturerupperquotas',
+            '-lt': '--lecturertargets'}
 
 
 def legal_vector(rng, mp=None, max_n1=12, max_n2=12, max_n3=8, big=False):
@@ -83,6 +88,9 @@ def to_argv(v, outdir, rng=None):
             chunks.append(['-' + k, repr(v[k]) if isinstance(v[k], float) else str(v[k])])
     if rng is not None:
         rng.shuffle(chunks)
+        for c in chunks:
+            if c[0] in GEN_LONG and rng.random() < 0.15:     # documented long forms
+                c[0] = GEN_LONG[c[0]]
     return [t for c in chunks for t in c]
 
 
